@@ -284,6 +284,17 @@ func (w *world) newPeer() *peer {
 }
 
 func (p *peer) connect() bool {
+	if strings.HasPrefix(p.w.addr, "tcp://") {
+		var port int
+		fmt.Sscanf(p.w.addr, "tcp://127.0.0.1:%d", &port)
+		fd, _, err := mcsys.PConnectTCP(&unix.SockaddrInet4{Port: port, Addr: [4]byte{127, 0, 0, 1}}, false)
+		if err != nil {
+			p.rerr = err
+			return false
+		}
+		p.fd = fd
+		return true
+	}
 	fd, err := mcsys.PConnectUnix(p.path)
 	if err != nil {
 		p.rerr = err
